@@ -1,6 +1,7 @@
 (* C07 - format() only turns spaces into line breaks, and every line fits the box. *)
-From Coq Require Import List ZArith.
-From Pory Require Import FmtLayout.
+From Coq Require Import List ZArith NArith.
+Import ListNotations.
+From Pory Require Import Lexer Ast Parser Format FmtLayout FmtRefine.
 
 (* for an arbitrary word type, any integer width function (any font table), space width, maxW, cursor,
    numLines and token list: every produced line with at least two words fits (incl. the cursor reserve on the
@@ -11,3 +12,36 @@ Theorem layout_fits_and_discipline :
             (indices word 0 (layout word width space maxW cursor numLines ts)) (layout word width space maxW cursor numLines ts).
 Proof. exact FmtLayout.layout_fits_and_discipline. Qed.
 Print Assumptions layout_fits_and_discipline.
+
+(* the executable format_text of the model (compared with FontConfig.FormatText on every run) IS that abstract line
+   filler applied to the words get_next_word yields, printed with single spaces and break codes ... *)
+Theorem format_text_refines :
+  forall fc txt0 maxW cursor fontID numLines ws,
+    let txt := map (fun c => if (c =? 10)%N then 32%N else c) txt0 in
+    let spaceW := rune_width fc 32%N fontID in
+    words_from txt (S (List.length txt)) (Datatypes.fst (get_next_word txt)) (Datatypes.snd (get_next_word txt)) = Some ws ->
+    format_text fc txt0 maxW cursor fontID numLines = None \/
+    format_text fc txt0 maxW cursor fontID numLines =
+      Some (print_lines (layout text (fun w => word_width fc w fontID) spaceW maxW cursor numLines (map classify ws))).
+Proof. exact FmtRefine.format_text_refines. Qed.
+Print Assumptions format_text_refines.
+
+(* ... hence every line the model produces fits and follows the discipline, for every font table and parameter set *)
+Theorem format_text_lines_fit :
+  forall fc txt0 maxW cursor fontID numLines ws out,
+    let txt := map (fun c => if (c =? 10)%N then 32%N else c) txt0 in
+    let spaceW := rune_width fc 32%N fontID in
+    let width := fun w => word_width fc w fontID in
+    words_from txt (S (List.length txt)) (Datatypes.fst (get_next_word txt)) (Datatypes.snd (get_next_word txt)) = Some ws ->
+    format_text fc txt0 maxW cursor fontID numLines = Some out ->
+    exists ls, out = print_lines ls /\
+      Forall2 (fun i l => line_ok text width spaceW maxW cursor numLines i l /\ disc_ok text numLines i l) (indices text 0 ls) ls.
+Proof. exact FmtRefine.format_text_lines_fit. Qed.
+Print Assumptions format_text_lines_fit.
+
+(* nothing is lost, duplicated or reordered: the words of the lines, in order, are the words of the input *)
+Theorem layout_keeps_words :
+  forall (word : Type) (width : word -> Z) (space maxW cursor numLines : Z) (ts : list (tok word)),
+    flat_map (lwords word) (layout word width space maxW cursor numLines ts) = words_of_toks word ts.
+Proof. exact FmtRefine.layout_keeps_words. Qed.
+Print Assumptions layout_keeps_words.
